@@ -83,6 +83,7 @@ class Spec(SeqSpec):
         ops.append(('delete', (1,)))
         ops.append(('delete', (2, 3)))
         ops.append(('reopen',))
+        ops.append(('reinit_clear',))
         return ops
 
     def enabled(self, hist, op):
@@ -95,6 +96,13 @@ class Spec(SeqSpec):
         return True
 
     def step_check(self, world, before, after, res, hist, model_before):
+        if res.op[0] == 'reinit_clear':
+            # the container is wiped on purpose: only the layout rules apply to the (empty) result, and - what matters -
+            # to every later step of the same handle
+            from ..rawread import RawState
+            empty = RawState.__new__(RawState)
+            empty.packs, empty.rows = {}, []
+            return pack_monitor(empty, after, world.config['pack_size_target'])
         return pack_monitor(before, after, world.config['pack_size_target'])
 
 
